@@ -1118,6 +1118,11 @@ def run_sdf(case):
                 rec = again[f"renamed {i}"]
                 o.check_eq(rec.header.mol_name, f"renamed {i}", "sdf_header_fields", "mol_name of a renamed record")
                 check_metadata(o, rec.metadata, r["meta"], f"metadata of renamed record {i}")
+        # a parsed file is edited and written again: what is written is the metadata the records
+        # hold after the edits (op-list; indices are reduced at interpretation time)
+        edits = case.get("edits") or []
+        if edits:
+            run_sdf_edits(o, molio, text, recs, edits)
         if multi_line:
             o.label("multi_line_value")
         if registry:
@@ -1128,6 +1133,77 @@ def run_sdf(case):
             o.label("has_V3000_record")
         o.mark_nontrivial(len(recs) >= 2 or registry or multi_line)
     return o
+
+
+def run_sdf_edits(o, molio, text, recs, edits):
+    """Op-list on the metadata of the records of a file that was read from text:
+    ["set", r, k, _, value] overwrites the value of the k-th existing key in place,
+    ["del", r, k, _, _] removes the k-th existing key, ["add", r, _, key, value] stores a value under
+    a (mostly new) key, ["swap", r, _, _, _] assigns a new Metadata object holding the same items,
+    ["write", ...] writes the file and goes on with the file read back.  The model is the list of
+    (key parts, value) pairs the record held when it was read; after the final write/read every
+    record must hold the model."""
+    edited = molio.SDFile.read(io.StringIO(text))
+    names = [r["name"] for r in recs]
+    model = {}
+
+    def touch(name):
+        rec = edited[name]
+        if name not in model:
+            model[name] = [[key_tuple(k), v] for k, v in rec.metadata.items()]
+        return rec, model[name]
+
+    def settle(what):
+        nonlocal edited
+        _, again = write_read_text(edited, molio.SDFile, "stringio")
+        if not o.check_eq(list(again.keys()), names, "record_names_and_order", what + ": record names"):
+            return False
+        for name, want in model.items():
+            check_metadata(o, again[name].metadata, want, f"{what}: metadata of record {name!r}")
+        edited = again
+        return True
+
+    for op, ri, ki, key, value in edits:
+        name = names[ri % len(names)]
+        if op == "write":
+            o.label("edit:write_between")
+            if not settle("edited file written and read"):
+                return
+            continue
+        rec, items = touch(name)
+        if op == "set":
+            if not items:
+                continue
+            pos = ki % len(items)
+            real_key = list(rec.metadata.keys())[pos]
+            if key_tuple(real_key) != items[pos][0]:
+                # (order differs from the model: find it by its parts)
+                real_key = next(k for k in rec.metadata.keys() if key_tuple(k) == items[pos][0])
+            rec.metadata[real_key] = value
+            items[pos][1] = value
+            o.label("edit:value_of_existing_key_overwritten")
+        elif op == "del":
+            if not items:
+                continue
+            pos = ki % len(items)
+            real_key = next(k for k in rec.metadata.keys() if key_tuple(k) == items[pos][0])
+            del rec.metadata[real_key]
+            del items[pos]
+            o.label("edit:key_deleted")
+        elif op == "add":
+            new_key = molio.Metadata.Key(number=key[0], name=key[1], registry_internal=key[2], registry_external=key[3])
+            rec.metadata[new_key] = value
+            hit = [it for it in items if it[0] == list(key)]
+            if hit:
+                hit[0][1] = value
+                o.label("edit:value_of_existing_key_overwritten")
+            else:
+                items.append([list(key), value])
+                o.label("edit:key_added")
+        elif op == "swap":
+            rec.metadata = molio.Metadata(dict(rec.metadata.items()))
+            o.label("edit:new_Metadata_assigned")
+    settle("edited file written and read")
 
 
 KEY_NAME_ALPHABET = "abcXYZ019_." + "é"
@@ -1223,6 +1299,15 @@ def st_sdf(tier):
 
     s_records = st.lists(record(), min_size=1, max_size=4, unique_by=lambda r: r["name"])
     s_spot, s_pad = st.integers(0, 5), st.sampled_from([" ", "  ", "\t"])
+    # edits of the metadata of a file that was read (interpreted by run_sdf_edits)
+    s_edit = st.tuples(
+        st.sampled_from(["set", "set", "set", "add", "del", "swap", "write"]),
+        st.integers(0, 3),
+        st.integers(0, 3),
+        st_key(),
+        st_value(),
+    ).map(list)
+    s_edits = st.one_of(st.just([]), st.lists(s_edit, min_size=1, max_size=4))
 
     @st.composite
     def gen(draw):
@@ -1248,6 +1333,7 @@ def st_sdf(tier):
                     new = pad + r["name"] if spot % 2 == 0 else r["name"] + pad
                     if new not in [q["name"] for q in recs]:
                         r["name"] = new
+        case["edits"] = draw(s_edits)
         if case["io"] == "path" and not _case_is_ascii(case):
             case["io"] = "stringio"
         return case
@@ -1608,7 +1694,8 @@ SUBS = [
         thorough=50000,
         rule=">= 2 records or a key with a registry part or a multi-line value",
         clauses="SDF: record names and order, header fields, metadata keys/values (as a mapping), molecule of every "
-        "record; every documented form of the metadata argument; default record of get/set_structure",
+        "record; every documented form of the metadata argument; default record of get/set_structure; "
+        "op-list of metadata edits (overwrite / add / delete / new Metadata) on a parsed file, written and read again",
     ),
     Sub(
         "rdkit_bridge",
